@@ -13,12 +13,52 @@ pub fn generate(tier: &str, rng: &mut Rng) -> Vec<String> {
     out.push("dec req none none 8192 6 Z 0 EV d0100000000".to_string());
     out.push("dec req none 4 8192 6 Z 0 EV d00000000050102030405 d000000000109".to_string());
     out.push("dec req none none 8192 6 Z 0 EV d0000000003ff0102 d000000000109".to_string());
+    // rev1 §1 witness: BufferSettings::new(0, _) + a compressed frame used to divide by zero in
+    // `decompress` (fixed: "a zero buffer_size no longer divides by zero when (de)compressing")
+    for e in [tonic::codec::CompressionEncoding::Gzip, tonic::codec::CompressionEncoding::Deflate, tonic::codec::CompressionEncoding::Zstd] {
+        let stream = frame(1, &oracle_compress(e, &[10, 11, 12]));
+        let evs = vec![format!("d{}", hexr(&stream))];
+        out.push(DecCase { dir: "req".into(), enc: Some(e), max: None, buf_size: 0, evs, stream, extra_polls: 3 }.line());
+    }
     let n = if thorough { 60000 } else { 5000 };
     for _ in 0..n {
         out.push(gen_dec_hostile(rng).line());
     }
     for _ in 0..n / 5 {
         out.push(gen_dec_valid(rng, true).line());
+    }
+    // ---- hostile input for the real prost decoder (rev1 S1 / M1 / M5, seed C07c) ----
+    // corpus: a length varint cut off by the end of the payload, more frames behind it in the same
+    // chunk (reading past the payload's end must not happen); the same as the last frame of the
+    // body (an undecodable last message is an error, not a clean end); an undecodable payload
+    // followed by a valid frame; zero bytes where a field key is expected (padding must not be
+    // taken for the end of the message: the rest of the frame would be read as the next header)
+    for (stream, evs) in [
+        (vec![0u8, 0, 0, 0, 2, 0x0a, 0x80, 0, 0, 0, 0, 2, 0x0a, 0], vec!["d00000000020a8000000000020a00"]),
+        (vec![0u8, 0, 0, 0, 2, 0x0a, 0x80], vec!["d00000000020a80"]),
+        (vec![0u8, 0, 0, 0, 2, 0x0a, 0, 0, 0, 0, 0, 2, 0x0a, 0x80], vec!["d00000000020a00", "d00000000020a80"]),
+        (vec![0u8, 0, 0, 0, 3, 0xff, 0xff, 0xff, 0, 0, 0, 0, 2, 0x0a, 0], vec!["d0000000003ffffff", "d00000000020a00"]),
+        (vec![0u8, 0, 0, 0, 8, 0x0a, 0x01, 0x61, 0, 0, 0, 0, 0], vec!["d00000000080a01610000000000"]),
+        (vec![0u8, 0, 0, 0, 5, 0x0a, 0x01, 0x61, 0, 0, 0, 0, 0, 0, 2, 0x0a, 0], vec!["d00000000050a01610000", "d00000000020a00"]),
+        (vec![0u8, 0, 0, 0, 4, 0x12, 0x01, 0x09, 0, 0, 0, 0, 0, 0], vec!["d000000000412010900", "p", "d0000000000"]),
+    ] {
+        for dir in ["req", "resp200"] {
+            out.push(DecCase { dir: dir.into(), enc: None, max: None, buf_size: 8192, evs: evs.iter().map(|e| e.to_string()).collect(), stream: stream.clone(), extra_polls: 4 }.pline());
+        }
+    }
+    for _ in 0..n / 2 {
+        out.push(gen_pdec_hostile(rng).pline());
+    }
+    // every truncation point of a few prost streams, hostile payloads included
+    for _ in 0..(if thorough { 30 } else { 5 }) {
+        let c = gen_pdec_hostile(rng);
+        for cut in 0..c.stream.len() {
+            let b = &c.stream[..cut];
+            let style = rng.below(4);
+            let chunks = chunkings(rng, b, &[], style);
+            let evs = events_from_chunks(rng, chunks, false);
+            out.push(DecCase { dir: if rng.chance(1, 2) { "req".into() } else { "resp200".into() }, enc: c.enc, max: None, buf_size: *rng.pick(&BUF_SIZES), evs, stream: b.to_vec(), extra_polls: 4 }.pline());
+        }
     }
     // truncation at every byte of a few valid streams, each also cut at every byte
     let k = if thorough { 40 } else { 6 };
@@ -30,7 +70,7 @@ pub fn generate(tier: &str, rng: &mut Rng) -> Vec<String> {
             let style = rng.below(4);
             let chunks = chunkings(rng, b, &starts, style);
             let evs = events_from_chunks(rng, chunks, false);
-            out.push(DecCase { dir: gen_dir(rng), enc, max: None, buf_size: 16, evs, stream: b.to_vec(), extra_polls: 4 }.line());
+            out.push(DecCase { dir: gen_dir(rng), enc, max: None, buf_size: *rng.pick(&BUF_SIZES), evs, stream: b.to_vec(), extra_polls: 4 }.line());
         }
     }
     if thorough {
@@ -64,7 +104,7 @@ pub fn generate(tier: &str, rng: &mut Rng) -> Vec<String> {
                     prev = *c;
                 }
                 chunks.push(b[prev..].to_vec());
-                let base: Vec<String> = chunks.iter().map(|c| format!("d{}", &hex(c)[1..])).collect();
+                let base: Vec<String> = chunks.iter().map(|c| format!("d{}", hexr(c))).collect();
                 for dir in ["req", "resp200", "resp503"] {
                     out.push(DecCase { dir: dir.into(), enc: None, max: Some(8), buf_size: 16, evs: base.clone(), stream: b.clone(), extra_polls: 3 }.line());
                     for sp in specials {
